@@ -22,20 +22,26 @@ Inductive copt :=
     (* true: electricpb.WithInitialActiveMode(m); false: WithActiveModeOption(resource.WithInitialValue(m)) *)
 | CClock (k : Z)                         (* electricpb.WithClock(clock k) *)
 | CResClock (k : Z)                      (* resource.WithClock(clock k): reaches the resources, not Model.clock *)
+| CModeClock (k : Z)                     (* WithModeOption(resource.WithClock(clock k)): the modes collection only *)
+| CActiveClock (k : Z)                   (* WithActiveModeOption(resource.WithClock(clock k)): the active value only *)
 | CRng.                                  (* electricpb.WithRNG(..): ids only *)
 
-Record margs := mkArgs { a_records : list emode; a_active : emode; a_clock : Z }.
+(* [a_mclock] / [a_aclock]: the clock of the modes collection / of the active value (the last
+   resource.WithClock among modeOpts / activeModeOpts): the change time of their events *)
+Record margs := mkArgs { a_records : list emode; a_active : emode; a_clock : Z; a_mclock : Z; a_aclock : Z }.
 
 (* DefaultModelOptions: WithInitialActiveMode(&ElectricMode{}), WithClock(clock.Real()), no records *)
-Definition default_args : margs := mkArgs [] blank 0.
+Definition default_args : margs := mkArgs [] blank 0 0 0.
 
 Definition apply_opt (a : margs) (o : copt) : margs :=
   match o with
-  | CInitial ms => mkArgs (a_records a ++ ms) (a_active a) (a_clock a)
-  | CRecord _ m => mkArgs (a_records a ++ [m]) (a_active a) (a_clock a)
-  | CActive _ m => mkArgs (a_records a) m (a_clock a)
-  | CClock k => mkArgs (a_records a) (a_active a) k
-  | CResClock _ => a
+  | CInitial ms => mkArgs (a_records a ++ ms) (a_active a) (a_clock a) (a_mclock a) (a_aclock a)
+  | CRecord _ m => mkArgs (a_records a ++ [m]) (a_active a) (a_clock a) (a_mclock a) (a_aclock a)
+  | CActive _ m => mkArgs (a_records a) m (a_clock a) (a_mclock a) (a_aclock a)
+  | CClock k => mkArgs (a_records a) (a_active a) k k k
+  | CResClock k => mkArgs (a_records a) (a_active a) (a_clock a) k k
+  | CModeClock k => mkArgs (a_records a) (a_active a) (a_clock a) k (a_aclock a)
+  | CActiveClock k => mkArgs (a_records a) (a_active a) (a_clock a) (a_mclock a) k
   | CRng => a
   end.
 
@@ -44,6 +50,8 @@ Definition calc_args (opts : list copt) : margs := fold_left apply_opt opts defa
 Definition cfg_records (opts : list copt) : list emode := a_records (calc_args opts).
 Definition cfg_active (opts : list copt) : emode := a_active (calc_args opts).
 Definition cfg_clock (opts : list copt) : Z := a_clock (calc_args opts).
+Definition cfg_mclock (opts : list copt) : Z := a_mclock (calc_args opts).
+Definition cfg_aclock (opts : list copt) : Z := a_aclock (calc_args opts).
 
 (* WithInitialMode panics while the option is built, i.e. before NewModel runs *)
 Definition opt_panics (o : copt) : bool :=
